@@ -34,7 +34,7 @@ def corpus(pid):
 
 def _one(slot, item, tag):
     pid, kind, name, patch, exp = item
-    root = '/tmp/qxm/live-%s%d' % (tag, slot)
+    root = '/tmp/qxm/live-%s%d-%d' % (tag, os.getpid(), slot)      # (per process: two runs at the same time must not share scratch trees)
     S = root + '/repo'
     os.makedirs(S, exist_ok=True)
     subprocess.run('rsync -a --delete --exclude target --exclude .git --exclude circuits --exclude pybindings/target /repo/ %s/' % S, shell=True, check=True)
@@ -75,7 +75,7 @@ def run(ids, jobs=6, echo=None, tag='', only=None):
                 echo('%-7s %s %s/%s %s' % (r['status'], r['property'], r['kind'], r['name'], r.get('why') or ', '.join(r.get('keys', [])[:2])
                                            + (' [%d undecided: %s]' % (r['undecided'], ', '.join(r['undecided_keys'][:2])) if r.get('undecided') else '')))
     for s in range(jobs):
-        shutil.rmtree('/tmp/qxm/live-%s%d' % (tag, s), ignore_errors=True)
+        shutil.rmtree('/tmp/qxm/live-%s%d-%d' % (tag, os.getpid(), s), ignore_errors=True)
     return dict(total=len(res), caught=sum(r['status'] == 'caught' for r in res), skipped=sum(r['status'] == 'skipped' for r in res),
                 missed=sum(r['status'] == 'MISSED' for r in res), silent=sum(r['status'] == 'silent' for r in res),
                 false_alarms=sum(r['status'] == 'FALSE-ALARM' for r in res), undecided_on_benign=sum(r.get('undecided', 0) for r in res if r['kind'] == 'benign'),
